@@ -101,11 +101,13 @@ fn stat_add(i: usize) -> usize {
 pub struct TlVal {
     k: usize,
     cnt: std::cell::Cell<usize>,
+    /// a leak-tracked allocation owned by the value: an instance that is never destroyed shows as a leak report
+    _trk: loom::alloc::Track<()>,
 }
 impl TlVal {
     fn new(k: usize) -> TlVal {
         stat_add(2 * k);
-        TlVal { k, cnt: std::cell::Cell::new(0) }
+        TlVal { k, cnt: std::cell::Cell::new(0), _trk: loom::alloc::Track::new(()) }
     }
     fn bump(&self) -> usize {
         let c = self.cnt.get();
@@ -549,6 +551,16 @@ fn run_thread(sh: SArc<Sh>, t: usize) {
             "wr" if ins.k == "panic" => {
                 armed.set(true);
                 sh.cells[oi()].get().with_mut(|_| panic!("verif-panic"))
+            }
+            // k = "parkin": the NEXT instruction (a park) is executed inside the closure, i.e. the thread blocks while the
+            // access is open (the pair is one interpreter step; C06 only)
+            "rd" if ins.k == "parkin" => {
+                sh.cells[oi()].get().with(|_| loom::thread::park());
+                next = pc + 2;
+            }
+            "wr" if ins.k == "parkin" => {
+                sh.cells[oi()].get().with_mut(|_| loom::thread::park());
+                next = pc + 2;
             }
             "rd" => sh.cells[oi()].get().with(|_| ()),
             "wr" => sh.cells[oi()].get().with_mut(|_| ()),
